@@ -9,6 +9,10 @@ use std::collections::HashMap;
 use std::iter::FusedIterator;
 use std::slice;
 
+#[cfg(kani)]
+#[path = "/verif/kani/h_data.rs"]
+mod verif_kani;
+
 /// A chance information set for cached sampling
 #[derive(Debug)]
 pub struct SampledChance {
